@@ -63,6 +63,8 @@ def _new_run(scn, db, d, **kw):
         f = scn['ftp']
         ftp = dict(files={k: v.encode() for k, v in f['files'].items()}, dirs=tuple(f['dirs']),
                    listings={k: v.encode('latin-1') for k, v in f['listings'].items()})
+        if f.get('mlsd'):          # directories for which the server answers MLSD (RFC 3659), which the client tries first
+            ftp['mlsd'] = {k: v.encode('latin-1') for k, v in f['mlsd'].items()}
         kw.pop('chooser', None)
         r = X.HRun(dict(hosts={'a.test': X.A_IP}, urls=[], robots={}), X.ftp_argv(db, d, ['ftp://f.test/']), None, ftp=ftp,
                    concurrency=scn['N'], db_path=db, cwd=d, **kw)
